@@ -115,9 +115,13 @@ func BFS(sys *System) *BFSResult {
 		}
 		return p
 	}
+	identities := map[string]int{}
 	addViol := func(f Finding, p []string, tr []string) {
 		res.NViolations++
-		if len(res.Violations) < 10 {
+		identities[f.Identity]++
+		// details for the first occurrence of each identity (a known finding must not crowd out
+		// an unknown one)
+		if identities[f.Identity] == 1 && len(res.Violations) < 40 {
 			res.Violations = append(res.Violations, BFSViolation{Finding: f, Path: p, Trace: tr})
 		}
 	}
@@ -210,8 +214,10 @@ func BFS(sys *System) *BFSResult {
 				}
 			}
 		}
-		if res.NViolations >= 2000 && res.Capped == "" {
-			res.Capped = "stopped after 2000 violations"
+		// many different things failing: stop; many occurrences of few identities (e.g. a listed
+		// known finding) do not end the search
+		if len(identities) >= 40 && res.Capped == "" {
+			res.Capped = "stopped after violations of 40 different identities"
 		}
 		if res.Capped != "" {
 			break
